@@ -520,6 +520,8 @@ class CrashWorld(World):
                     continue
                 hs = m.hashes[o]
                 if (hs[m.n] - hs[nk] + hs[j]) & MASK == hL:
+                    if not self.strict:
+                        raise Abandon("%s (step %d) discarded acknowledged buffered writes while the process was alive (C06's subject)" % (pt["op"], pt["step"]), "C06")
                     raise Violation(
                         "prefix",
                         "%s (step %d) discarded %d acknowledged, still buffered writes while the process was alive: the live store now shows everything issued except writes %d..%d, so no later crash can leave a prefix"
